@@ -58,8 +58,9 @@ class WriterState:
         ctr = counters or [ex_fresh_u64('ctr%d' % i) for i in range(3)]
         self.counters = ctr
         metrics = Agg('struct', 'WriterMetrics', None, tuple(Int(c, 'u64') for c in ctr))
-        mlw = Agg('struct', 'MultiLineWriter', None,
-                  (Int(written, 'usize'), Int(cap, 'usize'), metrics, bw, self.ending))
+        vals = {'written': Int(written, 'usize'), 'capacity': Int(cap, 'usize'), 'metrics': metrics, 'inner': bw, 'line_ending': self.ending}
+        vals.update(LAYOUT['extra'])
+        mlw = Agg('struct', 'MultiLineWriter', None, tuple(vals[n] for n in LAYOUT['names']))
         self.cell = Cell(mlw, 'mlw')
 
     def ref(self):
@@ -67,9 +68,9 @@ class WriterState:
 
     def post(self, ex):
         v = self.cell.v
-        written = v.fields[0].t
-        cap = v.fields[1].t
-        bwv = v.fields[3]
+        written = v.fields[FI('written')].t
+        cap = v.fields[FI('capacity')].t
+        bwv = v.fields[FI('inner')]
         content = bwv.state[2]
         return written, cap, content
 
@@ -78,8 +79,19 @@ def ex_fresh_u64(name):
     return z3.BitVec(name, 64)
 
 
+LAYOUT = {'names': ['written', 'capacity', 'metrics', 'inner', 'line_ending'], 'extra': {}, 'extra_pc': []}
+REQUIRED_FIELDS = ('written', 'capacity', 'metrics', 'inner', 'line_ending')
+
+
+def FI(name):
+    return LAYOUT['names'].index(name)
+
+
 def field_order_check(prog):
-    """The harness builds the struct positionally: confirm declaration order from the source."""
+    """The harness builds the struct by field name: read the declaration order from the source. Fields beyond the
+    five known ones are taken to be configuration derived by the constructor: their value is computed by running the
+    constructor's MIR on symbolic (capacity, terminator) and is assumed to stay what the constructor made it (an
+    assumption of the inductive step only; bounded histories run the real constructor and need none)."""
     import re, os
     for crate, root in prog.src_roots.items():
         p = os.path.join(root, 'cadence', 'src', 'io.rs')
@@ -90,15 +102,46 @@ def field_order_check(prog):
             m = re.search(r'pub struct MultiLineWriter<T>\s*where\s*T: Write,\s*\{(.*?)\n\}', txt, re.S)
             if not m:
                 raise Unsupported('MultiLineWriter struct definition not found')
-            names = re.findall(r'^\s*([a-z_]+):', m.group(1), re.M)
-            if names != ['written', 'capacity', 'metrics', 'inner', 'line_ending']:
-                raise Unsupported('MultiLineWriter field order changed: %r' % names)
+            names = re.findall(r'^\s*(?:pub(?:\([a-z]+\))?\s+)?([a-z_]+):', m.group(1), re.M)
+            missing = [n for n in REQUIRED_FIELDS if n not in names]
+            if missing:
+                raise Unsupported('MultiLineWriter no longer has the fields %r (has %r)' % (missing, names))
             m = re.search(r'struct WriterMetrics \{(.*?)\n\}', txt, re.S)
-            names = re.findall(r'^\s*([a-z_]+):', m.group(1), re.M)
-            if names != ['inner_write', 'buf_write', 'flushed']:
-                raise Unsupported('WriterMetrics field order changed: %r' % names)
+            mnames = re.findall(r'^\s*([a-z_]+):', m.group(1), re.M)
+            if mnames != ['inner_write', 'buf_write', 'flushed']:
+                raise Unsupported('WriterMetrics field order changed: %r' % mnames)
+            if names != LAYOUT['names'] or (set(names) - set(REQUIRED_FIELDS) and not LAYOUT['extra']):
+                LAYOUT['names'] = names
+                LAYOUT['extra'], LAYOUT['extra_pc'] = {}, []
+                extra = [n for n in names if n not in REQUIRED_FIELDS]
+                if extra:
+                    _derive_extra_fields(prog, extra)
             return
     raise Unsupported('io.rs not found')
+
+
+def _derive_extra_fields(prog, extra):
+    cap, elen = z3.BitVec('cap', 64), z3.BitVec('elen', 64)
+    ex = make_explorer(prog, 60000, 0)
+    ex.assumptions = [z3.ULE(cap, ISIZE_MAX), z3.ULE(elen, ISIZE_MAX)]
+    oks = []
+
+    def entry(ex):
+        w = Native('EnvWriter', {'faults': True}, fresh_id())
+        end = Str((Atom('ending', elen),), 'str')
+        return ex.call(prog.find_impl_method('with_ending', 'MultiLineWriter<T>'), [w, Int(cap, 'usize'), end])
+
+    def on_path(ex, result, status):
+        if status == 'ok':
+            oks.append((result, list(ex.pc)))
+
+    ex.run(entry, on_path)
+    if len(oks) != 1:
+        raise Unsupported('MultiLineWriter has extra fields %r and its constructor has %d normal paths (cannot derive their values)' % (extra, len(oks)))
+    result, pc = oks[0]
+    for n in extra:
+        LAYOUT['extra'][n] = result.fields[LAYOUT['names'].index(n)]
+    LAYOUT['extra_pc'] = pc
 
 
 def inv(cap, elen, written, b):
@@ -330,7 +373,7 @@ def inductive(prog, timeout_ms=60000, seed=0):
 
     cap, elen, written, b, mlen = [z3.BitVec(n, 64) for n in ('cap', 'elen', 'written', 'b', 'mlen')]
     ctrs = [z3.BitVec('ctr%d' % i, 64) for i in range(3)]
-    common = [inv(cap, elen, written, b)] + [z3.ULT(c, 1 << 63) for c in ctrs]
+    common = [inv(cap, elen, written, b)] + [z3.ULT(c, 1 << 63) for c in ctrs] + list(LAYOUT['extra_pc'])
 
     for op in ('write', 'flush', 'drop'):
         ex = make_explorer(prog, timeout_ms, seed)
@@ -362,9 +405,10 @@ def inductive(prog, timeout_ms=60000, seed=0):
                 return
             if op == 'drop':
                 # after drop the writer is gone; evaluate on the recorded events only
-                st.cell.v = Agg('struct', 'MultiLineWriter', None,
-                                (Int(written, 'usize'), Int(cap, 'usize'), UNIT,
-                                 new_bufwriter(Int(cap, 'usize'), st.inner_cell, Content()), st.ending))
+                vals = {'written': Int(written, 'usize'), 'capacity': Int(cap, 'usize'), 'metrics': UNIT,
+                        'inner': new_bufwriter(Int(cap, 'usize'), st.inner_cell, Content()), 'line_ending': st.ending}
+                vals.update(LAYOUT['extra'])
+                st.cell.v = Agg('struct', 'MultiLineWriter', None, tuple(vals[n] for n in LAYOUT['names']))
             wire = [e for e in ex.events if e[0] == 'wire']
             StepChecker(ex, op, cap, elen, b, ('L',), mlen if op == 'write' else None).run(
                 result, status, wire, st.post(ex), findings, obligations)
@@ -393,10 +437,10 @@ def inductive(prog, timeout_ms=60000, seed=0):
                              'pc': list(ex.pc), 'events': list(ex.events), 'op': 'new', 'label': 'base', 'trail': []})
             return
         obligations[0] += 1
-        w0 = result.fields[0].t
-        c0 = result.fields[1].t
-        bw = result.fields[3]
-        ending = result.fields[4]
+        w0 = result.fields[FI('written')].t
+        c0 = result.fields[FI('capacity')].t
+        bw = result.fields[FI('inner')]
+        ending = result.fields[FI('line_ending')]
         b0 = bw.state[2].total()
         cond = z3.And(inv(c0, ending.length(), w0, b0), c0 == cap, bw.state[0].t == cap, ending.length() == elen,
                       z3.BoolVal(ending.key() == (('str', 'ending'),)))
@@ -444,15 +488,15 @@ def bmc(prog, K=3, fault_budget=1, timeout_ms=60000, seed=0, max_paths=60000, wi
     written0, b0 = z3.BitVec('written', 64), z3.BitVec('b', 64)
     ctrs = [z3.BitVec('ctr%d' % i, 64) for i in range(3)]
     if start == 'inv':
-        ex.assumptions += [inv(cap, elen, written0, b0)] + [z3.ULT(c, 1 << 62) for c in ctrs]
+        ex.assumptions += [inv(cap, elen, written0, b0)] + [z3.ULT(c, 1 << 62) for c in ctrs] + list(LAYOUT['extra_pc'])
     wfn, ffn = mlw_fn(prog, 'write'), mlw_fn(prog, 'flush')
     ctor = prog.find_impl_method('with_ending', 'MultiLineWriter<T>')
     histories = [0]
 
     def snapshot(cell):
         v = cell.v
-        bwv = v.fields[3]
-        return v.fields[0].t, v.fields[1].t, bwv.state[2]
+        bwv = v.fields[FI('inner')]
+        return v.fields[FI('written')].t, v.fields[FI('capacity')].t, bwv.state[2]
 
     def entry(ex):
         if start == 'inv':
@@ -632,7 +676,7 @@ def scenario_from_finding(f, K):
             # the one legal desynchronisation: empty terminator, a metric of exactly `cap` bytes written through
             ops.append({'op': 'write', 'len': capv})
             pre_attempts = 1
-    for o in f['ops']:
+    for o in f.get('ops') or []:
         if o[0] == 'write':
             ln = g(mlens[o[1]])
             if ln > (1 << 24):
@@ -690,7 +734,7 @@ def _bmc_split_job(args):
         return opseq, {'error': str(e)}
 
 
-def bmc_parallel(prog, K, fault_budget, timeout_ms=60000, seed=0, jobs=None, split_depth=12, start='init', min_len=1):
+def bmc_parallel(prog, K, fault_budget, timeout_ms=60000, seed=0, jobs=None, split_depth=12, start='init', min_len=1, only=None):
     """All op sequences over {write, flush} of length 1..K (each followed by the final drop); the decision
     tree of every sequence is cut at `split_depth` decisions and the subtrees are explored in parallel."""
     import multiprocessing as mp
@@ -700,6 +744,8 @@ def bmc_parallel(prog, K, fault_budget, timeout_ms=60000, seed=0, jobs=None, spl
             if 'w' not in t and n > 1:
                 continue
             seqs.append(''.join(t))
+    if only is not None:
+        seqs = [sq for sq in seqs if only(sq)]
     jobs = jobs or max(1, (os.cpu_count() or 4) - 1)
     ctx = mp.get_context('fork')
     with ctx.Pool(jobs) as pool:
